@@ -455,7 +455,15 @@ def class_applies(f, cls):
     return False
 
 
+def _threads(ctx: Ctx, item):
+    from .. import threads
+    threads.decode_pass(ctx, "C09", *item, mode="encode")
+
+
 def run(ctx: Ctx):
+    from .. import threads as _th
+    tk = [d.key for d in _th.thread_definitions() if d.encodable]
+    pmap(ctx, _threads, [(tk[i::16], 2 if ctx.quick else 30, 1000) for i in range(16) if tk[i::16]])
     db = canboat.db()
     enc = [d.key for d in db.defs if d.encodable]
     n = 60 if ctx.quick else 2500
@@ -465,6 +473,9 @@ def run(ctx: Ctx):
 
 
 def replay(ctx: Ctx, case):
+    if case.get("threads"):
+        from .. import threads
+        return threads.decode_replay("C09", case)
     """Replays re-evaluate the stored python literals of the assignment."""
     from datetime import date as _d, time as _t
     import datetime
